@@ -106,6 +106,9 @@ def fault_bytes(name: str) -> bytes:
         return M + struct.pack('!HB', 24, 5) + bytes(5)
     if name == 'unknown-type':
         return M + struct.pack('!HB', 19, 9)
+    if name in ('open-header-only', 'update-header-only', 'notification-header-only', 'refresh-header-only'):
+        # length 19 is right for KEEPALIVE only (RFC 4271 6.1): the other types with no body at all
+        return M + struct.pack('!HB', 19, {'open': 1, 'update': 2, 'notification': 3, 'refresh': 5}[name.split('-')[0]])
     if name == 'update-withdrawn-overrun':
         return codec.frame(2, struct.pack('!H', 50) + bytes(6))
     if name == 'update-attr-overrun':
@@ -139,6 +142,10 @@ HEADER_FAULTS = {
     'notification-length': {(1, 2)},
     'refresh-length': {(1, 2)},
     'unknown-type': {(1, 3)},
+    'open-header-only': {(1, 2)},
+    'update-header-only': {(1, 2)},
+    'notification-header-only': {(1, 2)},
+    'refresh-header-only': {(1, 2)},
 }
 UPDATE_FAULTS = {
     'update-withdrawn-overrun': {(3, 1)},
